@@ -163,10 +163,8 @@ class StatusMonitor:
                 self.log.warning("No stage weight for stage %s. Default to %lf\n" % (stage, fallbackWeight))
                 weights.append(fallbackWeight * 1000)
 
-        # VV: adding floats is hard, let's assume that there're at most 2 decimals
-        int_weights = [int(e * 1000) for e in weights]
-
-        if reduce(operator.add, int_weights) != 1000:
+        # VV: adding floats is hard, use the same test as FlowIR.inject_default_values()
+        if not experiment.model.frontends.flowir.FlowIR.stage_weights_add_to_one(weights):
             self.log.warning("Stage weights do not add to one: %s = %3.2lf\n" % (weights, reduce(operator.add, weights)))
             self.log.warning("All stage-weights will default to %3.2lf\n" % fallbackWeight)
             weights = [fallbackWeight]*len(self.commands)
